@@ -53,6 +53,10 @@ def build_corpus(tier, rng):
         it = G.string_enum(rng, nvariants=n, allow_default=False, allow_dw=False, allow_aci=False, allow_fields=not fieldless,
                            allow_prefix=True, custom_err=False, generics=not fieldless)
         items.append(("random", it))
+    # two variants with the SAME canonical name: every list still has one entry per variant
+    items.append(("samename", Item("E", [Variant("HTTPServer", "unit"), Variant("HttpServer", "unit"), Variant("Other", "unit")], metas=[EM("sall", "kebab-case")])))
+    items.append(("samename", Item("E", [Variant("Crimson", "unit", [], [ser("Red")]), Variant("Red", "unit"), Variant("Blue", "tuple", [Field("u8")], [tos("Red")])])))
+    items.append(("samename", Item("E", [Variant("A", "unit", [], [tos("x")]), Variant("B", "unit", [], [tos("x"), DISABLED]), Variant("C", "unit", [], [tos("x")])], metas=[EM("prefix", "p")])))
     for fam, it in items:
         fieldless = all(v.kind == "unit" for v in it.variants)
         derives = ["EnumCount", "VariantNames", "EnumIter"] + (["VariantArray"] if fieldless else [])
